@@ -327,6 +327,9 @@ def _ssl_socket(sock: socket.socket, user_sslopt: dict, hostname):
 
 def _tunnel(sock: socket.socket, host, port: int, auth) -> socket.socket:
     debug("Connecting proxy...")
+    if ":" in host:
+        # an IPv6 literal keeps its brackets in an authority
+        host = f"[{host}]"
     connect_header = f"CONNECT {host}:{port} HTTP/1.1\r\n"
     connect_header += f"Host: {host}:{port}\r\n"
 
